@@ -110,7 +110,10 @@ def render_rel(rel, n, sch, loc=None):
         out = sch.num(0, loc)
     m = rel["m"]
     lhs = nm(i) if m == 1 else "%s%s*%s" % ("-" if m < 0 else "", sch.num(abs(m), loc), nm(i))
-    return "%s %s %s" % (lhs, rel["op"], out), out
+    op = rel["op"]
+    if op == "=" and getattr(sch, "eqeq", False):
+        op = "=="                      # the other documented spelling of an equality
+    return "%s %s %s" % (lhs, op, out), out
 
 
 def render_sys(rels, n, sch):
@@ -156,6 +159,10 @@ def schemes_for(n, thorough=False):
         Scheme("y-locals", ["y%d" % k for k in range(n)], list(range(n)), "y", n, numfmt="locals"),
         Scheme("named12", ["q%d" % k for k in P12c], P12c, ["q%d" % k for k in range(12)], 12),
     ]
+    # equalities spelled '==' (both spellings are documented input) in two of the schemes
+    for sc in S:
+        if sc.name in ("x12b", "prefix"):
+            sc.eqeq = True
     if thorough:
         S.append(Scheme("x12c", ["x%d" % k for k in P12c], P12c, "x", 12, numfmt="locals"))
     return S
